@@ -447,6 +447,11 @@ package leader
 //@   on call KeyValue.Create as c assert C05.fresh_token_per_attempt: tokDrawn && TokenOf(c.value) == myTok
 //@   on call attemptPriorityTakeover assert C10.gate: e.cfg.AllowPriorityTakeover
 //@   on call becomeLeader as c assert C05.claims_with_drawn_token: c.token == myTok
+//@   ghost sawLeader Bool = false
+//@   ghost leaderChecked Bool = false
+//@   on load kvElection.isLeader as l set sawLeader = l.value
+//@   on load kvElection.isLeader set leaderChecked = true
+//@   on call KeyValue.Create assert C08+C07.leader_does_not_reacquire: leaderChecked && !sawLeader
 
 //@ func (e *kvElection) attemptPriorityTakeover(payloadBytes)
 //@   tags C01 C10 C13 C05
@@ -485,7 +490,8 @@ package leader
 //@   ensures C08.promote_once: spawns(becomeLeader$3) == ((claimed && promoteSet) ? 1 : 0)
 //@   ensures C08.promotion_goroutine_calls_back: scalls(onPromote) == ((claimed && promoteSet) ? 1 : 0)
 //@   ensures C09.no_promote_after_stop: stateL == "STOPPED" || ctxNilL ==> !claimed && spawns(becomeLeader$1) == 0 && spawns(becomeLeader$2) == 0 && spawns(becomeLeader$3) == 0
-//@   ensures C02.claims_when_running: stateL != "STOPPED" && !ctxNilL ==> claimed && spawns(becomeLeader$1) == 1 && spawns(becomeLeader$2) == 1
+//@   ensures C02.claims_when_running: stateL != "STOPPED" && !ctxNilL && !wasLeaderAtLock ==> claimed && spawns(becomeLeader$1) == 1 && spawns(becomeLeader$2) == 1
+//@   ensures C08.no_second_term_on_top_of_a_term: wasLeaderAtLock ==> !claimed && spawns(becomeLeader$1) == 0 && spawns(becomeLeader$2) == 0 && spawns(becomeLeader$3) == 0
 
 // becomeFollower() and settleAsFollower() are thin unexported wrappers: always inlined into
 // their callers (where the caller's justification is known), never verified on their own.
